@@ -646,6 +646,9 @@ func (w *World) doRelay(in Intent) {
 		cur := append([]ext.Member(nil), e.Valset...)
 		sigs := alignSigs(cur, sigBy, in.Mask, ext.MakeCheckpoint(membersOf(s), s.Nonce, e.GravityID))
 		call := &ExtCall{Chain: in.Chain, Kind: "valset", Info: map[string]string{"nonce": strconv.FormatUint(s.Nonce, 10)}}
+		if in.Mask == 0 {
+			call.Info["full"] = "1" // the relayer submits every confirmation the hub has
+		}
 		w.preExtCall(call, s, nil, nil, sigs)
 		call.Err = e.UpdateValset(membersOf(s), s.Nonce, cur, e.ValsetNonce, sigs)
 		w.postExtCall(call)
@@ -700,6 +703,9 @@ func (w *World) doRelay(in Intent) {
 		sigs := alignSigs(cur, sigBy, in.Mask, ext.BatchHash(batchCallOf(b), e.GravityID))
 		gas := bigOf(in.Gas)
 		call := &ExtCall{Chain: in.Chain, Kind: "batch", Info: map[string]string{"nonce": strconv.FormatUint(b.BatchNonce, 10), "token": b.ExternalTokenId}}
+		if in.Mask == 0 && in.Op == "batch" {
+			call.Info["full"] = "1"
+		}
 		w.preExtCall(call, nil, b, nil, sigs)
 		call.Err = e.SubmitBatch(cur, e.ValsetNonce, sigs, batchCallOf(b), relayer, gas)
 		w.postExtCall(call)
